@@ -15,6 +15,8 @@ MODELS = {
                                 'CONSTANTS MCMode = "impure"\n', "violates:ScheduleIndependent"),
     "Optimizer:termination": ("Optimizer", 'SPECIFICATION OptSpec\nINVARIANT BoundedProgress\nINVARIANT NeverRevisits\nPROPERTY EventuallyDone\n'
                               'CHECK_DEADLOCK FALSE\nCONSTANTS OptNames = {"a", "b", "c", "d"}\n', "holds"),
+    "SourceIO:phases": ("MC_SourceIO", 'SPECIFICATION IOSpec\nINVARIANT DataOnlyWhenExecuting\nINVARIANT ReadsInBounds\nCHECK_DEADLOCK FALSE\n'
+                        'CONSTANTS IOReqs <- MCReqs\nIOShape <- MCShape\n', "holds"),
     "MapBlocksInfo:exact": ("MC_MapBlocksInfo", 'SPECIFICATION MBSpec\nINVARIANT SeenOnGrid\nINVARIANT Exact\nCHECK_DEADLOCK FALSE\n'
                             'CONSTANTS MBLayouts <- MCLayouts\nMBRecs <- MCRecs\n', "holds"),
 }
